@@ -385,6 +385,19 @@ Ltac nd H :=
              rewrite ?in_app_iff in Hi; simpl in Hi
          end.
 
+(* the links of node x are the same in H' as in H *)
+Definition same_links (H H' : list cell) (x : nat) : Prop :=
+  prev_of H' x = prev_of H x /\ next_of H' x = next_of H x.
+
+(* frame conditions: the updated heap is explicit, every update is at a node excluded by a hypothesis *)
+Ltac frame_tac :=
+  let x := fresh "x" in
+  intro x; intros;
+  match goal with
+  | Hx : ~ In x _ |- _ => rewrite ?in_app_iff in Hx; simpl in Hx
+  end;
+  unfold same_links; lk; split; reflexivity.
+
 (* ------------------------------------------------------------------------------------------ *)
 (* G. the methods on a well-linked state                                                      *)
 (* ------------------------------------------------------------------------------------------ *)
@@ -399,14 +412,18 @@ Lemma remove_ok H f b z l1 n l2 :
   exists H',
     remove (Some n) (mkSt H (mkHdr f b z))
     = Ok (mkSt H' (mkHdr (hdp (l1 ++ l2) None) (lastp None (l1 ++ l2)) z))
-    /\ length H' = length H /\ map value H' = map value H /\ seg H' None (l1 ++ l2) None.
+    /\ length H' = length H /\ map value H' = map value H
+    /\ (forall x, ~ In x (l1 ++ n :: l2) -> same_links H H' x)
+    /\ seg H' None (l1 ++ l2) None.
 Proof.
   intros [Hnd [Hal [Hf [Hb Hs]]]]. subst f b.
   assert (Hn : n < length H) by (apply Hal; rewrite in_app_iff; simpl; auto).
   destruct (list_rev_case l1) as [-> | [l1' [a ->]]]; destruct l2 as [|c l2'].
   - (* [n] *)
     simpl in Hs. destruct Hs as [Hp [Hnx _]].
-    unfold remove. ev. rewrite Hnx, Hp. exists H. simpl. auto.
+    unfold remove. ev. rewrite Hnx, Hp. exists H. simpl.
+    split; [reflexivity|]. split; [reflexivity|]. split; [reflexivity|].
+    split; [intros x Hx; split; reflexivity|exact I].
   - (* n :: c :: l2' *)
     simpl in Hs. destruct Hs as [Hp [Hnx [Hpc [Hnc Hs]]]].
     cbn [app] in Hnd, Hal.
@@ -415,6 +432,7 @@ Proof.
     unfold remove. ev. rewrite Hnx.
     rewrite ptr_eqb_lastp_false by notin_tac. ev. rewrite ?Hnx, ?Hp. ev.
     exists (hsp H c None). split; [reflexivity|]. split; [len_tac|]. split; [apply map_value_hsp|].
+    split; [frame_tac|].
     apply seg_hsp_hd with (p := Some n); [notin_tac|exact Hc|]. simpl. auto.
   - (* l1' ++ [a; n] *)
     rewrite app_nil_r.
@@ -425,6 +443,7 @@ Proof.
     rewrite ptr_eqb_hdp_false by notin_tac. ev. rewrite ?Hp, ?Hnx. ev.
     lk. rewrite ?Hp.
     exists (hsn H a None). split; [reflexivity|]. split; [len_tac|]. split; [apply map_value_hsn|].
+    split; [frame_tac|].
     apply seg_hsn_last with (q := Some n); [notin_tac|exact Ha|exact Hs].
   - (* l1' ++ a :: n :: c :: l2' *)
     apply seg_app in Hs. rewrite lastp_app in Hs. simpl in Hs.
@@ -438,6 +457,7 @@ Proof.
     exists (hsp (hsn H a (Some c)) c (Some a)).
     split; [reflexivity|]. split; [len_tac|].
     split; [rewrite map_value_hsp, map_value_hsn; reflexivity|].
+    split; [frame_tac|].
     apply seg_app. rewrite lastp_app. simpl hdp. simpl lastp. split.
     + apply seg_hsp_notin; [notin_tac|].
       apply seg_hsn_last with (q := Some n); [notin_tac|exact Ha|exact Hs1].
@@ -480,6 +500,7 @@ Lemma link_before_ok H f b z L1 m L2 n :
     link_before (Some n) (Some m) (mkSt H (mkHdr f b z))
     = Ok (mkSt H' (mkHdr (hdp (L1 ++ n :: m :: L2) None) (lastp None (L1 ++ n :: m :: L2)) z))
     /\ length H' = length H /\ map value H' = map value H
+    /\ (forall x, x <> n -> ~ In x (L1 ++ m :: L2) -> same_links H H' x)
     /\ seg H' None (L1 ++ n :: m :: L2) None.
 Proof.
   intros [Hnd [Hal [Hf [Hb Hs]]]] Hn Hni. subst f b.
@@ -491,6 +512,7 @@ Proof.
     exists (hsn (hsp (hsp H n None) m (Some n)) n (Some m)).
     split; [reflexivity|]. split; [len_tac|].
     split; [rewrite map_value_hsn, !map_value_hsp; reflexivity|].
+    split; [frame_tac|].
     apply seg_cons; [lk; reflexivity|lk; reflexivity|].
     apply seg_hsn_notin; [notin_tac|].
     apply seg_hsp_hd with (p := None); [notin_tac|len_tac|].
@@ -504,6 +526,7 @@ Proof.
     exists (hsn (hsn (hsp (hsp H n (Some a)) m (Some n)) n (Some m)) a (Some n)).
     split; [reflexivity|]. split; [len_tac|].
     split; [rewrite !map_value_hsn, !map_value_hsp; reflexivity|].
+    split; [frame_tac|].
     apply seg_app. rewrite lastp_app. simpl hdp. simpl lastp. split.
     + apply seg_hsn_last with (q := Some m); [notin_tac|len_tac|].
       apply seg_hsn_notin; [notin_tac|].
@@ -522,6 +545,7 @@ Lemma link_after_ok H f b z L1 m L2 n :
     link_after (Some n) (Some m) (mkSt H (mkHdr f b z))
     = Ok (mkSt H' (mkHdr (hdp (L1 ++ m :: n :: L2) None) (lastp None (L1 ++ m :: n :: L2)) z))
     /\ length H' = length H /\ map value H' = map value H
+    /\ (forall x, x <> n -> ~ In x (L1 ++ m :: L2) -> same_links H H' x)
     /\ seg H' None (L1 ++ m :: n :: L2) None.
 Proof.
   intros [Hnd [Hal [Hf [Hb Hs]]]] Hn Hni. subst f b.
@@ -534,6 +558,7 @@ Proof.
     exists (hsp (hsn (hsn H n None) m (Some n)) n (Some m)).
     split; [reflexivity|]. split; [len_tac|].
     split; [rewrite map_value_hsp, !map_value_hsn; reflexivity|].
+    split; [frame_tac|].
     apply seg_app. simpl hdp. split.
     + apply seg_hsp_notin; [notin_tac|].
       apply seg_hsn_notin; [notin_tac|].
@@ -548,6 +573,7 @@ Proof.
     exists (hsp (hsp (hsn (hsn H n (Some c)) m (Some n)) n (Some m)) c (Some n)).
     split; [reflexivity|]. split; [len_tac|].
     split; [rewrite !map_value_hsp, !map_value_hsn; reflexivity|].
+    split; [frame_tac|].
     apply seg_app. simpl hdp. split.
     + apply seg_hsp_notin; [notin_tac|].
       apply seg_hsp_notin; [notin_tac|].
@@ -567,6 +593,7 @@ Lemma push_front_ok H f b z l v :
     push_front v (mkSt H (mkHdr f b z))
     = Ok (mkSt H' (mkHdr (hdp (length H :: l) None) (lastp None (length H :: l)) (z + 1)%Z))
     /\ length H' = S (length H) /\ map value H' = map value H ++ [v]
+    /\ (forall x, x < length H -> ~ In x l -> same_links H H' x)
     /\ seg H' None (length H :: l) None.
 Proof.
   intros [Hnd [Hal [Hf [Hb Hs]]]]. subst f b.
@@ -574,6 +601,7 @@ Proof.
   - unfold push_front. ev.
     exists (H ++ [mkCell None None v]).
     split; [reflexivity|]. split; [len_tac|]. split; [rewrite map_app; reflexivity|].
+    split; [frame_tac|].
     apply seg_cons; [lk; reflexivity|lk; reflexivity|exact I].
   - assert (Ha : a < length H) by (apply Hal; simpl; auto).
     destruct (lastp_some a t) as [y [Ey _]].
@@ -581,6 +609,7 @@ Proof.
     exists (hsp (H ++ [mkCell None (Some a) v]) a (Some (length H))).
     split; [reflexivity|]. split; [len_tac|].
     split; [rewrite map_value_hsp, map_app; reflexivity|].
+    split; [frame_tac|].
     apply seg_cons; [lk; reflexivity|lk; reflexivity|].
     nd Hnd.
     apply seg_hsp_hd with (p := None); [notin_tac|len_tac|].
@@ -593,6 +622,7 @@ Lemma push_back_ok H f b z l v :
     push_back v (mkSt H (mkHdr f b z))
     = Ok (mkSt H' (mkHdr (hdp (l ++ [length H]) None) (lastp None (l ++ [length H])) (z + 1)%Z))
     /\ length H' = S (length H) /\ map value H' = map value H ++ [v]
+    /\ (forall x, x < length H -> ~ In x l -> same_links H H' x)
     /\ seg H' None (l ++ [length H]) None.
 Proof.
   intros [Hnd [Hal [Hf [Hb Hs]]]]. subst f b.
@@ -600,6 +630,7 @@ Proof.
   - unfold push_back. ev.
     exists (H ++ [mkCell None None v]).
     split; [reflexivity|]. split; [len_tac|]. split; [rewrite map_app; reflexivity|].
+    split; [frame_tac|].
     apply seg_cons; [lk; reflexivity|lk; reflexivity|exact I].
   - assert (Ha : a < length H) by (apply Hal; rewrite in_app_iff; simpl; auto).
     assert (Hf : exists y, hdp (l' ++ [a]) None = Some y).
@@ -610,6 +641,7 @@ Proof.
     exists (hsn (H ++ [mkCell (Some a) None v]) a (Some (length H))).
     split; [reflexivity|]. split; [len_tac|].
     split; [rewrite map_value_hsn, map_app; reflexivity|].
+    split; [frame_tac|].
     nd Hnd.
     apply seg_snoc. rewrite lastp_app. simpl lastp. split; [|split; [lk; reflexivity|lk; reflexivity]].
     apply seg_hsn_last with (q := None); [notin_tac|len_tac|].
@@ -623,6 +655,7 @@ Lemma insert_before_ok H f b z L1 m L2 v :
     = Ok (mkSt H' (mkHdr (hdp (L1 ++ length H :: m :: L2) None)
                          (lastp None (L1 ++ length H :: m :: L2)) (z + 1)%Z))
     /\ length H' = S (length H) /\ map value H' = map value H ++ [v]
+    /\ (forall x, x < length H -> ~ In x (L1 ++ m :: L2) -> same_links H H' x)
     /\ seg H' None (L1 ++ length H :: m :: L2) None.
 Proof.
   intros [Hnd [Hal [Hf [Hb Hs]]]]. subst f b.
@@ -634,6 +667,7 @@ Proof.
     exists (hsp (H ++ [mkCell None (Some m) v]) m (Some (length H))).
     split; [reflexivity|]. split; [len_tac|].
     split; [rewrite map_value_hsp, map_app; reflexivity|].
+    split; [frame_tac|].
     apply seg_cons; [lk; reflexivity|lk; reflexivity|].
     apply seg_hsp_hd with (p := None); [notin_tac|len_tac|].
     apply seg_alloc; [exact Hal|]. simpl. auto.
@@ -650,6 +684,7 @@ Proof.
     exists (hsn (hsp (H ++ [mkCell (Some a) (Some m) v]) m (Some (length H))) a (Some (length H))).
     split; [reflexivity|]. split; [len_tac|].
     split; [rewrite map_value_hsn, map_value_hsp, map_app; reflexivity|].
+    split; [frame_tac|].
     apply seg_app. rewrite lastp_app. simpl hdp. simpl lastp. split.
     + apply seg_hsn_last with (q := Some m); [notin_tac|len_tac|].
       apply seg_hsp_notin; [notin_tac|].
@@ -667,6 +702,7 @@ Lemma insert_after_ok H f b z L1 m L2 v :
     = Ok (mkSt H' (mkHdr (hdp (L1 ++ m :: length H :: L2) None)
                          (lastp None (L1 ++ m :: length H :: L2)) (z + 1)%Z))
     /\ length H' = S (length H) /\ map value H' = map value H ++ [v]
+    /\ (forall x, x < length H -> ~ In x (L1 ++ m :: L2) -> same_links H H' x)
     /\ seg H' None (L1 ++ m :: length H :: L2) None.
 Proof.
   intros [Hnd [Hal [Hf [Hb Hs]]]]. subst f b.
@@ -680,6 +716,7 @@ Proof.
     exists (hsn (H ++ [mkCell (Some m) None v]) m (Some (length H))).
     split; [reflexivity|]. split; [len_tac|].
     split; [rewrite map_value_hsn, map_app; reflexivity|].
+    split; [frame_tac|].
     apply seg_app. simpl hdp. split.
     + apply seg_hsn_notin; [notin_tac|].
       apply seg_alloc; [exact Hal1|exact Hs1].
@@ -695,6 +732,7 @@ Proof.
     exists (hsp (hsn (H ++ [mkCell (Some m) (Some c) v]) m (Some (length H))) c (Some (length H))).
     split; [reflexivity|]. split; [len_tac|].
     split; [rewrite map_value_hsp, map_value_hsn, map_app; reflexivity|].
+    split; [frame_tac|].
     apply seg_app. simpl hdp. split.
     + apply seg_hsp_notin; [notin_tac|].
       apply seg_hsn_notin; [notin_tac|].
@@ -710,10 +748,54 @@ Qed.
 (* H. one step of the model against one step of the ideal sequence                            *)
 (* ------------------------------------------------------------------------------------------ *)
 
+(* every allocated node outside the sequence (removed by Remove, dropped by Clear) has no neighbour *)
+Definition Det (H : list cell) (l : list nat) : Prop :=
+  forall x, x < length H -> ~ In x l -> prev_of H x = None /\ next_of H x = None.
+
 Definition Inv (s : state) (t : sstate) : Prop :=
   Lk (heap s) (front (lst s)) (back (lst s)) (sl t) /\
   size (lst s) = Z.of_nat (length (sl t)) /\
-  map value (heap s) = svals t.
+  map value (heap s) = svals t /\
+  Det (heap s) (sl t).
+
+(* unallocated handles have no links at all *)
+Lemma det_all H l x : Det H l -> ~ In x l -> prev_of H x = None /\ next_of H x = None.
+Proof.
+  intros Hd Hni. destruct (Nat.lt_ge_cases x (length H)) as [Hlt|Hge]; [apply Hd; assumption|].
+  apply nth_error_None in Hge. unfold prev_of, next_of. rewrite Hge. auto.
+Qed.
+
+(* a creating call: the new handle is in the new sequence, the old sequence is kept, the nodes outside
+   are not touched *)
+Lemma det_create H H' (l l' : list nat) :
+  Det H l -> length H' = S (length H) ->
+  (forall x, x < length H -> ~ In x l -> same_links H H' x) ->
+  In (length H) l' -> (forall x, In x l -> In x l') ->
+  Det H' l'.
+Proof.
+  intros Hd HlH Hfr Hnew Hinc x Hx Hni.
+  assert (Hxn : x <> length H) by (intro E; subst x; exact (Hni Hnew)).
+  assert (Hxl : x < length H) by lia.
+  assert (Hxi : ~ In x l) by (intro Hi; exact (Hni (Hinc x Hi))).
+  destruct (Hfr x Hxl Hxi) as [Ep En]. rewrite Ep, En. apply Hd; assumption.
+Qed.
+
+(* a move: l.remove(node) touches only nodes of the old sequence l, the relinking only node and the
+   nodes of the intermediate sequence L; all of them are in the new sequence l' *)
+Lemma det_move H H1 H2 (l L l' : list nat) n :
+  Det H l -> length H1 = length H -> length H2 = length H1 ->
+  (forall x, ~ In x l -> same_links H H1 x) ->
+  (forall x, x <> n -> ~ In x L -> same_links H1 H2 x) ->
+  In n l' -> (forall x, In x L -> In x l') -> (forall x, In x l -> In x l') ->
+  Det H2 l'.
+Proof.
+  intros Hd Hl1 Hl2 Hfr1 Hfr2 Hn HincL Hincl x Hx Hni.
+  assert (Hxn : x <> n) by (intro E; subst x; exact (Hni Hn)).
+  assert (HxL : ~ In x L) by (intro Hi; exact (Hni (HincL x Hi))).
+  assert (Hxl : ~ In x l) by (intro Hi; exact (Hni (Hincl x Hi))).
+  destruct (Hfr2 x Hxn HxL) as [Ep2 En2]. destruct (Hfr1 x Hxl) as [Ep1 En1].
+  rewrite Ep2, En2, Ep1, En1. apply Hd; [|exact Hxl]. rewrite <- Hl1, <- Hl2. exact Hx.
+Qed.
 
 Lemma NoDup_insert (a : nat) l1 l2 : NoDup (l1 ++ l2) -> ~ In a (l1 ++ l2) -> NoDup (l1 ++ a :: l2).
 Proof.
@@ -740,13 +822,15 @@ Lemma inv_create H H' z (l l' : list nat) (vs : list Z) v :
   map value H = vs -> z = Z.of_nat (length l) ->
   NoDup l' -> (forall x, In x l' -> x < S (length H)) -> length l' = S (length l) ->
   length H' = S (length H) -> map value H' = map value H ++ [v] -> seg H' None l' None ->
+  Det H' l' ->
   Inv (mkSt H' (mkHdr (hdp l' None) (lastp None l') (z + 1)%Z)) (mkS l' (vs ++ [v])).
 Proof.
-  intros Hv Hz Hnd Hal Hlen HlH Hv' Hs. unfold Inv, Lk. simpl.
-  split; [|split].
+  intros Hv Hz Hnd Hal Hlen HlH Hv' Hs Hd. unfold Inv, Lk. simpl.
+  split; [|split; [|split]].
   - repeat split; auto. intros x Hx. rewrite HlH. auto.
   - rewrite Hlen. lia.
   - rewrite Hv', Hv. reflexivity.
+  - exact Hd.
 Qed.
 
 (* the state reached by a call that only relinks *)
@@ -754,13 +838,15 @@ Lemma inv_relink H H' z (l l' : list nat) (vs : list Z) :
   map value H = vs -> z = Z.of_nat (length l) ->
   NoDup l' -> (forall x, In x l' -> x < length H) -> length l' = length l ->
   length H' = length H -> map value H' = map value H -> seg H' None l' None ->
+  Det H' l' ->
   Inv (mkSt H' (mkHdr (hdp l' None) (lastp None l') z)) (mkS l' vs).
 Proof.
-  intros Hv Hz Hnd Hal Hlen HlH Hv' Hs. unfold Inv, Lk. simpl.
-  split; [|split].
+  intros Hv Hz Hnd Hal Hlen HlH Hv' Hs Hd. unfold Inv, Lk. simpl.
+  split; [|split; [|split]].
   - repeat split; auto. intros x Hx. rewrite HlH. auto.
   - rewrite Hlen. exact Hz.
   - rewrite Hv', Hv. reflexivity.
+  - exact Hd.
 Qed.
 
 Lemma move_before_sim H f b z l vs n m :
@@ -772,9 +858,9 @@ Proof.
   rewrite move_before_unfold. simpl ptr_eqb.
   destruct (Nat.eqb n m) eqn:Enm; [eexists; split; [reflexivity|exact HI]|].
   apply Nat.eqb_neq in Enm.
-  destruct HI as [HL [Hz Hv]]. simpl in HL, Hz, Hv.
+  destruct HI as [HL [Hz [Hv Hd]]]. simpl in HL, Hz, Hv, Hd.
   destruct (in_split _ _ Hin) as [l1 [l2 ->]].
-  destruct (remove_ok H f b z l1 n l2 HL) as [H1 [E1 [Hl1 [Hv1 Hs1]]]].
+  destruct (remove_ok H f b z l1 n l2 HL) as [H1 [E1 [Hl1 [Hv1 [Hfr1 Hs1]]]]].
   destruct HL as [Hnd [Hal _]].
   pose proof (NoDup_remove_1 _ _ _ Hnd) as Hnd1.
   pose proof (NoDup_remove_2 _ _ _ Hnd) as Hni1.
@@ -788,7 +874,7 @@ Proof.
     rewrite Esp. exact Hx. }
   assert (Hn1 : n < length H1).
   { rewrite Hl1. apply Hal. apply in_insert. left. reflexivity. }
-  destruct (link_before_ok H1 _ _ z L1 m L2 n HL1 Hn1 Hni1) as [H2 [E2 [Hl2 [Hv2 Hs2]]]].
+  destruct (link_before_ok H1 _ _ z L1 m L2 n HL1 Hn1 Hni1) as [H2 [E2 [Hl2 [Hv2 [Hfr2 Hs2]]]]].
   rewrite E2. eexists. split; [reflexivity|].
   rewrite ins_before_app by (eapply NoDup_notin_l; exact Hnd1).
   apply (inv_relink H H2 z (l1 ++ n :: l2)); auto.
@@ -798,6 +884,12 @@ Proof.
   - rewrite (length_insert n L1), (length_insert n l1), Esp. reflexivity.
   - congruence.
   - congruence.
+  - apply (det_move H H1 H2 (l1 ++ n :: l2) (L1 ++ m :: L2) _ n Hd Hl1 Hl2 Hfr1 Hfr2).
+    + rewrite in_app_iff. simpl. auto.
+    + intros x Hx. rewrite in_app_iff in Hx. simpl in Hx. rewrite in_app_iff. simpl. tauto.
+    + intros x Hx. apply in_insert in Hx. rewrite Esp in Hx.
+      rewrite in_app_iff in Hx. simpl in Hx. rewrite in_app_iff. simpl.
+      destruct Hx as [->|Hx]; [auto|tauto].
 Qed.
 
 Lemma move_after_sim H f b z l vs n m :
@@ -809,9 +901,9 @@ Proof.
   rewrite move_after_unfold. simpl ptr_eqb.
   destruct (Nat.eqb n m) eqn:Enm; [eexists; split; [reflexivity|exact HI]|].
   apply Nat.eqb_neq in Enm.
-  destruct HI as [HL [Hz Hv]]. simpl in HL, Hz, Hv.
+  destruct HI as [HL [Hz [Hv Hd]]]. simpl in HL, Hz, Hv, Hd.
   destruct (in_split _ _ Hin) as [l1 [l2 ->]].
-  destruct (remove_ok H f b z l1 n l2 HL) as [H1 [E1 [Hl1 [Hv1 Hs1]]]].
+  destruct (remove_ok H f b z l1 n l2 HL) as [H1 [E1 [Hl1 [Hv1 [Hfr1 Hs1]]]]].
   destruct HL as [Hnd [Hal _]].
   pose proof (NoDup_remove_1 _ _ _ Hnd) as Hnd1.
   pose proof (NoDup_remove_2 _ _ _ Hnd) as Hni1.
@@ -825,7 +917,7 @@ Proof.
     rewrite Esp. exact Hx. }
   assert (Hn1 : n < length H1).
   { rewrite Hl1. apply Hal. apply in_insert. left. reflexivity. }
-  destruct (link_after_ok H1 _ _ z L1 m L2 n HL1 Hn1 Hni1) as [H2 [E2 [Hl2 [Hv2 Hs2]]]].
+  destruct (link_after_ok H1 _ _ z L1 m L2 n HL1 Hn1 Hni1) as [H2 [E2 [Hl2 [Hv2 [Hfr2 Hs2]]]]].
   rewrite E2. eexists. split; [reflexivity|].
   rewrite ins_after_app by (eapply NoDup_notin_l; exact Hnd1).
   assert (Hni2 : ~ In n ((L1 ++ [m]) ++ L2)).
@@ -845,6 +937,12 @@ Proof.
   - rewrite (length_insert n l1), Esp, !app_length. simpl. lia.
   - congruence.
   - congruence.
+  - apply (det_move H H1 H2 (l1 ++ n :: l2) (L1 ++ m :: L2) _ n Hd Hl1 Hl2 Hfr1 Hfr2).
+    + rewrite in_app_iff. simpl. auto.
+    + intros x Hx. rewrite in_app_iff in Hx. simpl in Hx. rewrite in_app_iff. simpl. tauto.
+    + intros x Hx. apply in_insert in Hx. rewrite Esp in Hx.
+      rewrite in_app_iff in Hx. simpl in Hx. rewrite in_app_iff. simpl.
+      destruct Hx as [->|Hx]; [auto|tauto].
 Qed.
 
 Lemma move_to_front_spec n f0 t0 :
@@ -878,46 +976,102 @@ Proof.
     + rewrite app_assoc in Hnd. eapply NoDup_notin_l. exact Hnd.
 Qed.
 
+Lemma nodup_bounded_length (l : list nat) n :
+  NoDup l -> (forall x, In x l -> x < n) -> length l <= n.
+Proof.
+  intros Hnd Hal. rewrite <- (seq_length n 0). apply NoDup_incl_length; [exact Hnd|].
+  intros x Hx. apply in_seq. apply Hal in Hx. lia.
+Qed.
+
+(* the loop of Clear *)
+Lemma clear_loop_S fuel h s :
+  clear_loop (S fuel) (Some h) s =
+  (n <- deref s (Some h) ;;
+   s1 <- set_prev (Some h) None s ;;
+   s2 <- set_next (Some h) None s1 ;;
+   clear_loop fuel (next n) s2).
+Proof. reflexivity. Qed.
+
+(* on a chain l starting at the loop variable, with enough fuel, the loop ends normally, has cut both
+   links of every node of l and has touched nothing else *)
+Lemma clear_loop_ok l : forall H hd p fuel,
+  NoDup l -> (forall x, In x l -> x < length H) -> seg H p l None -> length l < fuel ->
+  exists H',
+    clear_loop fuel (hdp l None) (mkSt H hd) = Ok (mkSt H' hd)
+    /\ length H' = length H /\ map value H' = map value H
+    /\ (forall x, In x l -> prev_of H' x = None /\ next_of H' x = None)
+    /\ (forall x, ~ In x l -> same_links H H' x).
+Proof.
+  induction l as [|a t IH]; intros H hd p fuel Hnd Hal Hs Hf.
+  - exists H. simpl. destruct fuel; (split; [reflexivity|]); (split; [reflexivity|]);
+      (split; [reflexivity|]); (split; [intros x []|intros x Hx; split; reflexivity]).
+  - destruct fuel as [|fuel]; [simpl in Hf; lia|].
+    simpl in Hs. destruct Hs as [_ [Hn Hs]].
+    assert (Ha : a < length H) by (apply Hal; left; reflexivity).
+    apply NoDup_cons_iff in Hnd. destruct Hnd as [Hat Hnd].
+    destruct (IH (hsn (hsp H a None) a None) hd (Some a) fuel) as [H' [E [Hl [Hv [Hin Hout]]]]].
+    + exact Hnd.
+    + intros x Hx. len_tac. apply Hal. right. exact Hx.
+    + apply seg_hsn_notin; [exact Hat|]. apply seg_hsp_notin; [exact Hat|]. exact Hs.
+    + simpl in Hf. lia.
+    + exists H'. cbn [hdp]. rewrite clear_loop_S. ev. rewrite Hn.
+      split; [exact E|]. split; [rewrite Hl; len_tac|].
+      split; [rewrite Hv, map_value_hsn, map_value_hsp; reflexivity|]. split.
+      * intros x [<-|Hx]; [|apply Hin; exact Hx].
+        destruct (Hout a Hat) as [Ep En]. rewrite Ep, En. lk. split; reflexivity.
+      * intros x Hx. simpl in Hx.
+        assert (Hxa : x <> a) by (intro E0; apply Hx; left; congruence).
+        assert (Hxt : ~ In x t) by (intro Hi; apply Hx; right; exact Hi).
+        destruct (Hout x Hxt) as [Ep En]. unfold same_links. rewrite Ep, En. lk. split; reflexivity.
+Qed.
+
 Lemma exec_sim s t o :
   Inv s t -> valid_op t o = true ->
-  exists s', exec o s = Ok s' /\ Inv s' (sstep t o) /\
-    (forall n, o = LRemove n ->
-       n < length (heap s') /\ prev_of (heap s') n = None /\ next_of (heap s') n = None).
+  exists s', exec o s = Ok s' /\ Inv s' (sstep t o).
 Proof.
   destruct s as [H [f b z]], t as [l vs]. intros HI Hvalid.
-  pose proof HI as [HL [Hz Hv]]. simpl in HL, Hz, Hv.
+  pose proof HI as [HL [Hz [Hv Hd]]]. simpl in HL, Hz, Hv, Hd.
   assert (Hlen : length vs = length H) by (rewrite <- Hv; apply map_length).
   pose proof HL as [Hnd [Hal _]].
   destruct o as [v|v|v m|v m|n|n m|n m|n|n|]; simpl in Hvalid; unfold sstep; simpl sl; simpl svals;
     rewrite ?Hlen.
   - (* PushFront *)
-    destruct (push_front_ok H f b z l v HL) as [H' [E [Hl' [Hv' Hs']]]].
-    simpl exec. rewrite E. eexists. split; [reflexivity|]. split; [|intros n0 E0; discriminate].
+    destruct (push_front_ok H f b z l v HL) as [H' [E [Hl' [Hv' [Hfr' Hs']]]]].
+    simpl exec. rewrite E. eexists. split; [reflexivity|].
     apply (inv_create H H' z l); auto.
     + constructor; [|exact Hnd]. intro Hi. apply Hal in Hi. lia.
     + intros x [<-|Hx]; [lia|]. apply Hal in Hx. lia.
+    + apply (det_create H H' l _ Hd Hl' Hfr'); [left; reflexivity|intros x Hx; right; exact Hx].
   - (* PushBack *)
-    destruct (push_back_ok H f b z l v HL) as [H' [E [Hl' [Hv' Hs']]]].
-    simpl exec. rewrite E. eexists. split; [reflexivity|]. split; [|intros n0 E0; discriminate].
+    destruct (push_back_ok H f b z l v HL) as [H' [E [Hl' [Hv' [Hfr' Hs']]]]].
+    simpl exec. rewrite E. eexists. split; [reflexivity|].
     apply (inv_create H H' z l); auto.
     + apply NoDup_insert; rewrite app_nil_r; [exact Hnd|]. intro Hi. apply Hal in Hi. lia.
     + intros x Hx. apply in_insert in Hx. rewrite app_nil_r in Hx.
       destruct Hx as [->|Hx]; [lia|]. apply Hal in Hx. lia.
     + rewrite length_insert, app_nil_r. reflexivity.
+    + apply (det_create H H' l _ Hd Hl' Hfr'); [|intros x Hx]; rewrite in_app_iff; simpl; auto.
   - (* InsertBefore *)
     apply mem_In in Hvalid. destruct (in_split _ _ Hvalid) as [L1 [L2 ->]].
-    destruct (insert_before_ok H f b z L1 m L2 v HL) as [H' [E [Hl' [Hv' Hs']]]].
-    simpl exec. rewrite E. eexists. split; [reflexivity|]. split; [|intros n0 E0; discriminate].
+    destruct (insert_before_ok H f b z L1 m L2 v HL) as [H' [E [Hl' [Hv' [Hfr' Hs']]]]].
+    simpl exec. rewrite E. eexists. split; [reflexivity|].
     rewrite ins_before_app by (eapply NoDup_notin_l; exact Hnd).
     apply (inv_create H H' z (L1 ++ m :: L2)); auto.
     + apply NoDup_insert; [exact Hnd|]. intro Hi. apply Hal in Hi. lia.
     + intros x Hx. apply in_insert in Hx.
       destruct Hx as [->|Hx]; [lia|]. apply Hal in Hx. lia.
     + rewrite length_insert. reflexivity.
+    + apply (det_create H H' (L1 ++ m :: L2) _ Hd Hl' Hfr').
+      * rewrite in_app_iff. simpl. auto.
+      * intros x Hx. rewrite in_app_iff in Hx. simpl in Hx. rewrite in_app_iff. simpl. tauto.
   - (* InsertAfter *)
     apply mem_In in Hvalid. destruct (in_split _ _ Hvalid) as [L1 [L2 ->]].
-    destruct (insert_after_ok H f b z L1 m L2 v HL) as [H' [E [Hl' [Hv' Hs']]]].
-    simpl exec. rewrite E. eexists. split; [reflexivity|]. split; [|intros n0 E0; discriminate].
+    destruct (insert_after_ok H f b z L1 m L2 v HL) as [H' [E [Hl' [Hv' [Hfr' Hs']]]]].
+    assert (Hd' : Det H' (L1 ++ m :: length H :: L2)).
+    { apply (det_create H H' (L1 ++ m :: L2) _ Hd Hl' Hfr').
+      - rewrite in_app_iff. simpl. auto.
+      - intros x Hx. rewrite in_app_iff in Hx. simpl in Hx. rewrite in_app_iff. simpl. tauto. }
+    simpl exec. rewrite E. eexists. split; [reflexivity|].
     rewrite ins_after_app by (eapply NoDup_notin_l; exact Hnd).
     assert (Hnd2 : NoDup ((L1 ++ [m]) ++ L2)) by (rewrite <- app_assoc; exact Hnd).
     assert (Hal2 : forall x, In x ((L1 ++ [m]) ++ L2) -> x < length H).
@@ -931,39 +1085,47 @@ Proof.
     + rewrite length_insert, <- app_assoc. reflexivity.
   - (* Remove *)
     apply mem_In in Hvalid. destruct (in_split _ _ Hvalid) as [l1 [l2 ->]].
-    destruct (remove_ok H f b z l1 n l2 HL) as [H1 [E1 [Hl1 [Hv1 Hs1]]]].
+    destruct (remove_ok H f b z l1 n l2 HL) as [H1 [E1 [Hl1 [Hv1 [Hfr1 Hs1]]]]].
     assert (Hn : n < length H1).
     { rewrite Hl1. apply Hal. apply in_insert. left. reflexivity. }
     pose proof (NoDup_remove_1 _ _ _ Hnd) as Hnd1.
     pose proof (NoDup_remove_2 _ _ _ Hnd) as Hni1.
     simpl exec. unfold remove_node. rewrite E1. ev.
-    eexists. split; [reflexivity|]. split.
-    + rewrite rem_app by (eapply NoDup_notin_l; exact Hnd).
-      assert (Ez : (z - 1)%Z = Z.of_nat (length (l1 ++ l2))).
-      { rewrite Hz, length_insert. lia. }
-      unfold Inv, Lk. simpl. repeat split; auto.
+    eexists. split; [reflexivity|].
+    rewrite rem_app by (eapply NoDup_notin_l; exact Hnd).
+    assert (Ez : (z - 1)%Z = Z.of_nat (length (l1 ++ l2))).
+    { rewrite Hz, length_insert. lia. }
+    unfold Inv. cbn [heap lst front back size sl svals].
+    split; [|split; [exact Ez|split]].
+    + unfold Lk. repeat split; auto.
       * intros x Hx. repeat (rewrite length_hsp || rewrite length_hsn). rewrite Hl1.
         apply Hal. apply in_insert. right. exact Hx.
       * apply seg_hsn_notin; [exact Hni1|]. apply seg_hsp_notin; [exact Hni1|]. exact Hs1.
-      * rewrite map_value_hsn, map_value_hsp. congruence.
-    + intros n0 E0. injection E0 as <-. simpl. split; [len_tac|]. split; lk; reflexivity.
+    + rewrite map_value_hsn, map_value_hsp. congruence.
+    + (* the removed node has just been isolated; the other detached nodes were not touched *)
+      intros x Hx Hxi. repeat (rewrite length_hsp in Hx || rewrite length_hsn in Hx).
+      destruct (Nat.eq_dec x n) as [->|Hxn].
+      * lk. split; reflexivity.
+      * assert (Hxl : ~ In x (l1 ++ n :: l2)).
+        { intro Hi. apply in_insert in Hi. destruct Hi as [Hi|Hi]; [exact (Hxn Hi)|exact (Hxi Hi)]. }
+        destruct (Hfr1 x Hxl) as [Ep En]. lk. rewrite Ep, En. apply Hd; [|exact Hxl].
+        rewrite <- Hl1. exact Hx.
   - (* MoveBefore *)
     apply andb_prop in Hvalid. destruct Hvalid as [Hvn Hvm].
     apply mem_In in Hvn. apply mem_In in Hvm.
     destruct (move_before_sim H f b z l vs n m HI Hvn Hvm) as [s' [E HI']].
-    simpl exec. exists s'. split; [exact E|]. split; [exact HI'|intros n0 E0; discriminate].
+    simpl exec. exists s'. split; [exact E|]. exact HI'.
   - (* MoveAfter *)
     apply andb_prop in Hvalid. destruct Hvalid as [Hvn Hvm].
     apply mem_In in Hvn. apply mem_In in Hvm.
     destruct (move_after_sim H f b z l vs n m HI Hvn Hvm) as [s' [E HI']].
-    simpl exec. exists s'. split; [exact E|]. split; [exact HI'|intros n0 E0; discriminate].
+    simpl exec. exists s'. split; [exact E|]. exact HI'.
   - (* MoveToFront *)
     apply mem_In in Hvalid. destruct l as [|f0 t0]; [contradiction|].
     destruct HL as [_ [_ [Hf _]]]. simpl in Hf. subst f.
     destruct (move_before_sim H (Some f0) b z (f0 :: t0) vs n f0 HI Hvalid (or_introl eq_refl))
       as [s' [E HI']].
     simpl exec. unfold move_to_front. simpl front. exists s'. split; [exact E|].
-    split; [|intros n0 E0; discriminate].
     rewrite move_to_front_spec. exact HI'.
   - (* MoveToBack *)
     apply mem_In in Hvalid.
@@ -972,13 +1134,21 @@ Proof.
     assert (Hy : In y (t0 ++ [y])) by (rewrite in_app_iff; simpl; auto).
     destruct (move_after_sim H f (Some y) z (t0 ++ [y]) vs n y HI Hvalid Hy) as [s' [E HI']].
     simpl exec. unfold move_to_back. simpl back. exists s'. split; [exact E|].
-    split; [|intros n0 E0; discriminate].
     rewrite move_to_back_spec by assumption. exact HI'.
   - (* Clear *)
-    simpl exec. eexists. split; [reflexivity|]. split; [|intros n0 E0; discriminate].
-    unfold clear, Inv, Lk. simpl. repeat split; auto.
-    + constructor.
-    + intros x [].
+    pose proof (nodup_bounded_length l (length H) Hnd Hal) as Hle.
+    destruct HL as [_ [_ [Hf [_ Hs]]]]. subst f.
+    destruct (clear_loop_ok l H (mkHdr (hdp l None) b z) None (S (length H)) Hnd Hal Hs)
+      as [H' [E [Hl' [Hv' [Hin Hout]]]]]; [lia|].
+    simpl exec. unfold clear. cbn [heap lst front]. rewrite E. ev.
+    eexists. split; [reflexivity|].
+    unfold Inv, Lk. cbn [heap lst front back size sl svals hdp lastp length].
+    split; [|split; [reflexivity|split; [congruence|]]].
+    + repeat split; auto; [constructor|intros x []].
+    + (* the nodes of the dropped sequence have been isolated by the loop, the others were already *)
+      intros x Hx _. destruct (in_dec Nat.eq_dec x l) as [Hi|Hni]; [apply Hin; exact Hi|].
+      destruct (Hout x Hni) as [Ep En]. rewrite Ep, En. apply Hd; [|exact Hni].
+      rewrite <- Hl'. exact Hx.
 Qed.
 
 (* ------------------------------------------------------------------------------------------ *)
@@ -1017,21 +1187,59 @@ Proof.
     intros x Hx. apply Hal. rewrite in_app_iff. auto.
 Qed.
 
-Lemma nodup_bounded_length (l : list nat) n :
-  NoDup l -> (forall x, In x l -> x < n) -> length l <= n.
+(* the marks of the forward walk *)
+Definition mark1 (m : list bool) (h : nat) : list bool := upd m h true.
+
+Lemma fold_mark_length fwd : forall m, length (fold_left mark1 fwd m) = length m.
 Proof.
-  intros Hnd Hal. rewrite <- (seq_length n 0). apply NoDup_incl_length; [exact Hnd|].
-  intros x Hx. apply in_seq. apply Hal in Hx. lia.
+  induction fwd as [|x t IH]; intros m; simpl; [reflexivity|].
+  rewrite IH. apply upd_length.
 Qed.
 
-Lemma observe_ideal o s t :
-  Inv s t ->
-  (forall n, o = LRemove n ->
-     n < length (heap s) /\ prev_of (heap s) n = None /\ next_of (heap s) n = None) ->
-  observe o s = sobs t.
+Lemma fold_mark_true fwd : forall m h,
+  nth_error m h = Some true -> nth_error (fold_left mark1 fwd m) h = Some true.
 Proof.
-  destruct s as [H [f b z]], t as [l vs]. intros [HL [Hz Hv]] Hiso.
-  simpl in HL, Hz, Hv, Hiso. destruct HL as [Hnd [Hal [Hf [Hb Hs]]]].
+  induction fwd as [|x t IH]; intros m h E; simpl; [exact E|].
+  apply IH. unfold mark1. destruct (Nat.eq_dec x h) as [->|Hx].
+  - apply nth_error_upd_same. eapply nth_error_some_lt. exact E.
+  - rewrite nth_error_upd_other by exact Hx. exact E.
+Qed.
+
+Lemma fold_mark_false fwd : forall m h,
+  nth_error (fold_left mark1 fwd m) h = Some false -> ~ In h fwd.
+Proof.
+  induction fwd as [|x t IH]; intros m h E; simpl; [tauto|].
+  simpl in E. intros [->|Hi].
+  - pose proof (nth_error_some_lt _ _ _ E) as Hh. rewrite fold_mark_length in Hh.
+    unfold mark1 in Hh. rewrite upd_length in Hh.
+    rewrite (fold_mark_true t (mark1 m h) h) in E; [discriminate|].
+    unfold mark1. apply nth_error_upd_same. exact Hh.
+  - exact (IH _ _ E Hi).
+Qed.
+
+Lemma nth_error_combine {A B} (a : list A) : forall (b : list B) i x y,
+  nth_error (combine a b) i = Some (x, y) -> nth_error a i = Some x /\ nth_error b i = Some y.
+Proof.
+  induction a as [|a0 a IH]; intros [|b0 b] [|i] x y E; simpl in *; try discriminate.
+  - injection E as -> ->. auto.
+  - apply IH. exact E.
+Qed.
+
+Lemma detached_isolated_true H l : Det H l -> detached_isolated H l = true.
+Proof.
+  intros Hd. unfold detached_isolated. apply forallb_forall. intros [c m] Hin.
+  destruct (In_nth_error _ _ Hin) as [h Eh]. apply nth_error_combine in Eh.
+  destruct Eh as [Ec Em]. cbn [fst snd]. destruct m; [reflexivity|].
+  change (marks (length H) l) with (fold_left mark1 l (repeat false (length H))) in Em.
+  apply fold_mark_false in Em.
+  destruct (Hd h (nth_error_some_lt _ _ _ Ec) Em) as [Ep En].
+  unfold prev_of in Ep. unfold next_of in En. rewrite Ec in Ep, En. rewrite Ep, En. reflexivity.
+Qed.
+
+Lemma observe_ideal s t : Inv s t -> observe s = sobs t.
+Proof.
+  destruct s as [H [f b z]], t as [l vs]. intros [HL [Hz [Hv Hd]]].
+  simpl in HL, Hz, Hv, Hd. destruct HL as [Hnd [Hal [Hf [Hb Hs]]]].
   pose proof (nodup_bounded_length l (length H) Hnd Hal) as Hle.
   assert (E1 : walk next (S (length H)) H f = l).
   { subst f. apply walk_next_seg with (p := None); [exact Hs|exact Hal|lia]. }
@@ -1051,13 +1259,7 @@ Proof.
     destruct (nth_error_lt H y Hy) as [c E]. rewrite E.
     apply seg_snoc in Hs. destruct Hs as [_ [_ Hn]]. unfold next_of in Hn. rewrite E in Hn.
     rewrite Hn. reflexivity. }
-  assert (E7 : match o with
-               | LRemove n => allocated H n && is_nil (prev_of H n) && is_nil (next_of H n)
-               | _ => true
-               end = true).
-  { destruct o as [v|v|v m|v m|n|n m|n m|n|n|]; try reflexivity.
-    destruct (Hiso n eq_refl) as [Hn [Hp Hx]]. rewrite Hp, Hx. unfold allocated.
-    apply Nat.ltb_lt in Hn. rewrite Hn. reflexivity. }
+  pose proof (detached_isolated_true H l Hd) as E7.
   unfold observe, sobs. cbn [heap lst front back size sl svals].
   rewrite E1, E2, E4, E5, E6, E7, Hz. reflexivity.
 Qed.
@@ -1068,20 +1270,19 @@ Qed.
 
 Lemma inv_empty : Inv empty sempty.
 Proof.
-  unfold Inv, Lk, empty, sempty. simpl. repeat split; auto.
-  - constructor.
-  - intros x [].
+  unfold Inv, Lk, empty, sempty. cbn [heap lst front back size sl svals hdp lastp seg length map].
+  split; [|split; [reflexivity|split; [reflexivity|]]].
+  - split; [constructor|]. split; [intros x []|]. split; [reflexivity|]. split; [reflexivity|exact I].
+  - intros x Hx. simpl in Hx. lia.
 Qed.
 
 Lemma step_sim s t o :
   Inv s t -> valid_op t o = true ->
-  step s o = (fst (step s o), sobs (sstep t o)) /\ Inv (fst (step s o)) (sstep t o) /\
-  (forall n, o = LRemove n ->
-     prev_of (heap (fst (step s o))) n = None /\ next_of (heap (fst (step s o))) n = None).
+  step s o = (fst (step s o), sobs (sstep t o)) /\ Inv (fst (step s o)) (sstep t o).
 Proof.
-  intros HI Hv. destruct (exec_sim s t o HI Hv) as [s' [E [HI' Hiso]]].
-  unfold step. rewrite E. simpl. rewrite (observe_ideal o s' _ HI' Hiso).
-  split; [reflexivity|]. split; [exact HI'|]. intros n En. apply (Hiso n En).
+  intros HI Hv. destruct (exec_sim s t o HI Hv) as [s' [E HI']].
+  unfold step. rewrite E. simpl. rewrite (observe_ideal s' _ HI').
+  split; [reflexivity|exact HI'].
 Qed.
 
 Lemma run_from_sim ops : forall s t,
@@ -1092,7 +1293,7 @@ Proof.
   induction ops as [|o ops IH]; intros s t HI Hv; simpl.
   - auto.
   - simpl in Hv. apply andb_prop in Hv. destruct Hv as [Hvo Hvr].
-    destruct (step_sim s t o HI Hvo) as [E [HI' _]].
+    destruct (step_sim s t o HI Hvo) as [E HI'].
     destruct (IH _ _ HI' Hvr) as [Er HIr].
     rewrite E. simpl. rewrite Er. auto.
 Qed.
@@ -1134,7 +1335,7 @@ Qed.
 Theorem xlist_values_at_creation ops :
   valid_ops ops = true -> map value (heap (run_state ops)) = created ops.
 Proof.
-  intros Hv. destruct (xlist_inv ops Hv) as [_ [_ E]]. rewrite E.
+  intros Hv. destruct (xlist_inv ops Hv) as [_ [_ [E _]]]. rewrite E.
   unfold srun_state. rewrite svals_srun. reflexivity.
 Qed.
 
@@ -1199,6 +1400,23 @@ Lemma srun_state_from_app a : forall t b,
   srun_state_from t (a ++ b) = srun_state_from (srun_state_from t a) b.
 Proof. induction a as [|o a IH]; intros t b; simpl; auto. Qed.
 
+(* every allocated node that is not in the ideal sequence - removed by Remove, dropped by Clear, at any
+   later time, however the list was re-grown since - has neither neighbour *)
+Theorem xlist_detached_isolated ops :
+  valid_ops ops = true ->
+  forall h, h < length (heap (run_state ops)) -> ~ In h (sl (srun_state ops)) ->
+            prev_of (heap (run_state ops)) h = None /\ next_of (heap (run_state ops)) h = None.
+Proof.
+  intros Hv h Hh Hni. destruct (xlist_inv ops Hv) as [_ [_ [_ Hd]]]. apply Hd; assumption.
+Qed.
+
+(* the number of handles handed out is the same in both layers *)
+Lemma xlist_fresh ops :
+  valid_ops ops = true -> length (heap (run_state ops)) = length (svals (srun_state ops)).
+Proof.
+  intros Hv. destruct (xlist_inv ops Hv) as [_ [_ [E _]]]. rewrite <- E. symmetry. apply map_length.
+Qed.
+
 Theorem xlist_removed_isolated ops n :
   valid_ops (ops ++ [LRemove n]) = true ->
   let H := heap (run_state (ops ++ [LRemove n])) in
@@ -1206,17 +1424,43 @@ Theorem xlist_removed_isolated ops n :
 Proof.
   intros Hv. pose proof (valid_ops_prefix _ _ Hv) as Hv1.
   pose proof (xlist_inv _ Hv1) as HI.
-  unfold valid_ops in Hv. rewrite valid_from_app in Hv. apply andb_prop in Hv.
-  destruct Hv as [_ Hv2]. simpl in Hv2. rewrite andb_true_r in Hv2.
-  fold (srun_state ops) in Hv2.
-  destruct (step_sim _ _ (LRemove n) HI Hv2) as [_ [_ Hiso]].
-  unfold run_state, srun_state. rewrite run_state_from_app, srun_state_from_app. simpl.
-  destruct (Hiso n eq_refl) as [Hp Hn].
-  split; [exact Hp|]. split; [exact Hn|].
-  destruct HI as [[Hnd _] _]. apply mem_In in Hv2.
-  fold (srun_state ops). destruct (in_split _ _ Hv2) as [l1 [l2 E]]. rewrite E in *.
-  rewrite rem_app by (eapply NoDup_notin_l; exact Hnd).
-  apply NoDup_remove_2 in Hnd. exact Hnd.
+  assert (Hni : ~ In n (sl (srun_state (ops ++ [LRemove n])))).
+  { unfold valid_ops in Hv. rewrite valid_from_app in Hv. apply andb_prop in Hv.
+    destruct Hv as [_ Hv2]. simpl in Hv2. rewrite andb_true_r in Hv2.
+    fold (srun_state ops) in Hv2.
+    unfold srun_state. rewrite srun_state_from_app. simpl.
+    destruct HI as [[Hnd _] _]. apply mem_In in Hv2.
+    fold (srun_state ops). destruct (in_split _ _ Hv2) as [l1 [l2 E]]. rewrite E in *.
+    rewrite rem_app by (eapply NoDup_notin_l; exact Hnd).
+    apply NoDup_remove_2 in Hnd. exact Hnd. }
+  destruct (xlist_inv _ Hv) as [_ [_ [_ Hd]]].
+  destruct (det_all _ _ n Hd Hni) as [Hp Hn].
+  split; [exact Hp|]. split; [exact Hn|exact Hni].
+Qed.
+
+(* Clear as it was before the repair ({ l.front = nil; l.back = nil; l.size = 0 }) does not have the
+   property: after PushBack x3, Clear the dropped node 0 still points at node 1 (and 1 at 0 and 2, ...),
+   and the harness's flag after that Clear is false.
+   The statement that fails for it (true for the repaired Clear: [xlist_detached_isolated]):
+     forall ops, valid_ops ops = true ->
+     forall h, h < length (heap (run_state_original ops)) -> ~ In h (sl (srun_state ops)) ->
+       prev_of (heap (run_state_original ops)) h = None /\ next_of (heap (run_state_original ops)) h = None *)
+Definition clear_original_witness : list op := [LPushBack 10; LPushBack 20; LPushBack 30; LClear].
+
+Theorem clear_original_refuted :
+  exists ops h,
+    valid_ops ops = true /\
+    h < length (heap (run_state_original ops)) /\
+    mem h (sl (srun_state ops)) = false /\
+    next_of (heap (run_state_original ops)) h <> None /\
+    map o_removed_isolated (run_original ops) = [true; true; true; false] /\
+    (* the repaired Clear on the same history *)
+    next_of (heap (run_state ops)) h = None /\
+    map o_removed_isolated (run ops) = [true; true; true; true].
+Proof.
+  exists clear_original_witness, 0. vm_compute.
+  split; [reflexivity|]. split; [lia|]. split; [reflexivity|]. split; [discriminate|].
+  split; [reflexivity|]. split; reflexivity.
 Qed.
 
 (* ------------------------------------------------------------------------------------------ *)
@@ -1224,7 +1468,8 @@ Qed.
 (* ------------------------------------------------------------------------------------------ *)
 
 (* every operation; node == mark; node and mark adjacent in both orders; node/mark at either end;
-   a single-element list; re-growth after Clear and after removing every node *)
+   a single-element list; re-growth after Clear and after removing every node; Clear of an empty list,
+   of a 4-element and of a 3-element list, each followed by re-growth *)
 Definition example_ops : list op :=
   [ LPushBack 10; LMoveToFront 0; LMoveToBack 0; LMoveBefore 0 0; LMoveAfter 0 0;   (* single node *)
     LPushFront 11; LInsertAfter 12 1; LInsertBefore 13 1;                           (* 3 1 2 0 *)
@@ -1238,7 +1483,10 @@ Definition example_ops : list op :=
     LRemove 3; LRemove 0; LRemove 1; LRemove 2;                                     (* emptied *)
     LPushFront 14; LPushBack 15; LInsertBefore 16 4; LInsertAfter 17 5;             (* re-grown *)
     LClear;
-    LPushBack 18; LPushFront 19; LMoveBefore 8 9; LMoveAfter 8 9; LRemove 9; LRemove 8; LClear ].
+    LPushBack 18; LPushFront 19; LMoveBefore 8 9; LMoveAfter 8 9; LRemove 9; LRemove 8; LClear;
+    LPushBack 20; LPushBack 21; LPushFront 22;                                      (* 12 10 11 *)
+    LClear;                                                                         (* drops 3 nodes *)
+    LPushBack 23; LInsertAfter 24 13; LMoveToFront 14 ].                            (* re-grown: 14 13 *)
 
 Example example_valid : valid_ops example_ops = true.
 Proof. vm_compute. reflexivity. Qed.
@@ -1249,7 +1497,7 @@ Example example_valid_split :
   valid_ops ([LPushBack 1; LPushBack 2] ++ [LRemove 0]) = true.
 Proof. vm_compute. split; reflexivity. Qed.
 
-Example example_runs : run example_ops = srun example_ops /\ length (run example_ops) = 35.
+Example example_runs : run example_ops = srun example_ops /\ length (run example_ops) = 42.
 Proof. vm_compute. split; reflexivity. Qed.
 
 Example example_lists :
@@ -1262,8 +1510,33 @@ Example example_lists :
     [1;2;0]; [1;2]; [2]; [];
     [4]; [4;5]; [6;4;5]; [6;4;5;7];
     [];
-    [8]; [9;8]; [8;9]; [9;8]; [8]; []; [] ].
+    [8]; [9;8]; [8;9]; [9;8]; [8]; []; [];
+    [10]; [10;11]; [12;10;11];
+    [];
+    [13]; [13;14]; [14;13] ].
 Proof. vm_compute. reflexivity. Qed.
+
+(* at the end of that history 15 handles have been handed out, 2 are in the list, and each of the
+   13 others - removed one by one or dropped by one of the three Clear calls - has no neighbour;
+   with the unrepaired Clear the nodes 4..7 and 10..12 keep their links *)
+Example example_detached :
+  let H := heap (run_state example_ops) in
+  length H = 15 /\ sl (srun_state example_ops) = [14; 13] /\
+  filter (fun h => negb (is_nil (prev_of H h) && is_nil (next_of H h))) (seq 0 15) = [13; 14] /\
+  let H0 := heap (run_state_original example_ops) in
+  filter (fun h => negb (is_nil (prev_of H0 h) && is_nil (next_of H0 h))) (seq 0 15)
+  = [4; 5; 6; 7; 10; 11; 12; 13; 14].
+Proof. vm_compute. repeat split; reflexivity. Qed.
+
+(* running out of fuel in the loop of Clear is a panic value, never a normal return (with the fuel that
+   [clear] passes it does not happen on valid histories: [exec_sim]) *)
+Example clear_loop_out_of_fuel :
+  let s := run_state [LPushBack 1; LPushBack 2; LPushBack 3] in
+  clear_loop 2 (front (lst s)) s = Panic POther /\
+  (exists s', clear_loop 3 (front (lst s)) s = Ok s') /\
+  exec LClear s = Ok (mkSt [mkCell None None 1%Z; mkCell None None 2%Z; mkCell None None 3%Z]
+                           (mkHdr None None 0%Z)).
+Proof. vm_compute. split; [reflexivity|]. split; [eexists; reflexivity|reflexivity]. Qed.
 
 (* ------------------------------------------------------------------------------------------ *)
 (* L. reading the refinement theorem                                                          *)
